@@ -341,6 +341,8 @@ def run(ck):
     # public operation leaves shadow == register; a shadow that drifts makes the next __enter__ restore a value the object never set
     from . import c03
     nstep = c03.run_setters(radio, agg, contract.SETTERS) + c03.run_getters(radio, agg, contract.GETTERS) + c03.run_pipes(radio, agg) + c03.run_address(radio, agg)
+    nstep += c03.run_misc(radio, agg)
+    c03.run_rest(radio, agg)        # closure: any other member that stores a shadow (read-only properties, helpers)
     agg.flush()
     ck.floor("R09.7", "setter/getter/pipe scenarios of the inductive step", nstep, 450)
     ck.floor("R09.1", "configuration registers", len(regmap.CONFIG_REGS), 22)
